@@ -884,6 +884,12 @@ class AstMixin:
             if op is ast.Eq:
                 return self.identical(a, b)
             if op is ast.NotEq:
+                # no __ne__ of their own: object.__ne__ inverts the type's __eq__ (unless that is NotImplemented)
+                for x, y, is_obj in ((a, b, a_obj), (b, a, b_obj)):
+                    if is_obj:
+                        r = self.call_dunder(x, "__eq__", [y], missing_ok=True)
+                        if r is not NotImplemented:
+                            return sym.Not(self.as_bool(r))
                 return sym.Not(self.identical(a, b))
             self.raise_(TypeError, f"'{dn}' not supported between instances")
         if _symint(a) or _symint(b):
